@@ -50,6 +50,10 @@ def g_closed(s, P):
         kw = {}
         if fn in ('FIM', 'GIM'):
             kw['log'] = s.chance(0.3)
+            if kw['log'] and s.chance(0.3):
+                # parameters close to 1 (log close to 0) with the smallest step sizes the property names
+                p0 = [s.choice([1.05, 1.1, 0.93, 2.0]) for _ in range(k)]
+                eps = s.choice([1e-4, 3e-4])
             if fn == 'GIM' and not multinom and s.chance(0.3):
                 kw['adjusts'] = [s.choice([0.8, 1.0, 1.25]) for _ in range(nboot)]
         else:
@@ -76,6 +80,14 @@ def g_closed(s, P):
             kw['dmask'] = s.choice([1, 2])
         if fn != 'FIM' and s.chance(0.3):
             kw['bcont'] = s.choice(['array', 'tuple'])
+        if s.chance(0.15):
+            # parameters of very different magnitude (an explicit theta-like weight of 1e4 next to weights of order 1):
+            # same information content after rescaling, badly scaled matrices
+            j = s.randrange(k)
+            sc = [1.0] * k
+            sc[j] = s.choice([1e-4, 1e-5, 1e4])
+            kw['scales'] = sc
+            p0[j] = p0[j] / sc[j] if p0[j] != 0 else 0.0
         if kw.get('adjusts') and s.chance(0.4):
             kw['acont'] = 'tuple'
         P.add('C19.closed_form', fn, k, seed, ns, p0, multinom, eps, s.randint(0, 3), nboot, **kw)
